@@ -824,7 +824,7 @@ func (c *Ctx) manyTxsCase() {
 		sc.txs = append(sc.txs, genTx{raw: t})
 	}
 	sc.desc = "max=64 thr=64 20000 x t20"
-	c.goOnly = !c.thorough
+	c.goOnly = true // Go-side oracles only in both tiers: one operation of such a case costs the model seconds
 	c.squareCase(sc)
 	c.goOnly = false
 	c.dist("many-txs")
@@ -846,7 +846,7 @@ func (c *Ctx) manySequencesCase() {
 		sc.txs = append(sc.txs, genTx{raw: raw, isBlob: true, inner: btx.Tx, blobs: specs})
 	}
 	sc.desc = fmt.Sprintf("max=64 thr=%d t200 36 x b[30 one-share blobs]", sc.thr)
-	c.goOnly = !c.thorough
+	c.goOnly = true // Go-side oracles only in both tiers: one operation of such a case costs the model seconds
 	c.squareCase(sc)
 	c.goOnly = false
 	c.dist("many-sequences")
@@ -871,7 +871,7 @@ func (c *Ctx) hugeBlobCases() {
 		}
 		sc.txs = append(sc.txs, genTx{raw: raw, isBlob: true, inner: btx.Tx, blobs: []blobSpec{spec}})
 		sc.desc = fmt.Sprintf("max=256 thr=64 b[v%d:%d]", spec.ver, n)
-		c.goOnly = !c.thorough
+		c.goOnly = true // Go-side oracles only in both tiers: one operation of such a case costs the model seconds
 		c.squareCase(sc)
 		c.goOnly = false
 		c.dist("huge-blob")
@@ -937,9 +937,9 @@ func (c *Ctx) hugeTxCases() {
 				sc.txs = append(sc.txs, genTx{raw: raw2, isBlob: true, inner: btx2.Tx, blobs: one})
 				sc.desc += " b[v0:600]"
 			}
-			// the 2 MiB case goes through the Go-side oracles only in the quick tier (the model tie for these
-			// sizes is exercised in the thorough tier and by the 1 MiB case)
-			c.goOnly = !c.thorough && L >= 1<<21
+			// the 2 MiB cases go through the Go-side oracles only (one operation of such a case takes the model
+			// several seconds; the model tie at these sizes is exercised by the 1 MiB cases)
+			c.goOnly = L >= 1<<21-4000
 			c.squareCase(sc)
 			c.goOnly = false
 			c.dist("huge-tx")
